@@ -175,6 +175,10 @@ def run_case(case, res):
             check_fit(res, U, p, W, nodes, al.generic_points(m, 2), "2d")
             check_fit(res, U, p, W, nodes, [Dgen.value(z) for z in nodes], "in_space_samples")
             if W is None:
+                for perm, lab in ((list(reversed(nodes)), "reversed"), (nodes[m // 2:] + nodes[:m // 2], "rotated")):
+                    check_fit(res, U, p, W, perm, [Dgen.value(z) for z in perm], "in_space_samples_" + lab)
+                    check_fit(res, U, p, W, perm, al.generic_points(m, None, 1), "generic_" + lab)
+            if W is None:
                 check_fit(res, U, p, W, nodes, al.generic_points(m, None, 1), "generic", True, "float")
         # default nodes: equally distributed, both ends included (documented)
         for m in (n, n + 2):
